@@ -220,7 +220,8 @@ fn gen(seed: u64, n: usize, tier: &str) -> Vec<Value> {
                 let a = *r.pick(&pool);
                 let b = *r.pick(&pool);
                 let (s, e) = if a <= b { (a, b) } else { (b, a) };
-                let v = r.range(2, 34) * 8; // 1/8 m/s: 2..34 m/s, some above vmax
+                // 1/8 m/s: 2..34 m/s, some above vmax; one in eight written with a negative value (sign-encoded)
+                let v = r.range(2, 34) * 8 * if r.chance(1, 8) { -1 } else { 1 };
                 rs.push((s, e, v));
             }
             rs.sort();
